@@ -96,7 +96,7 @@ func runSessions(c isoCase, which []int, order []int) (map[int]*result, error) {
 		if c.UDP {
 			// datagram handlers have no completion signal: wait for the reply (all steps of the UDP grammars elicit one) or a short quiet period
 			d := opened[i].Dgrams[before]
-			deadline := time.Now().Add(300 * time.Millisecond)
+			deadline := time.Now().Add(5 * time.Second)
 			for len(d.Snapshot()) == 0 && time.Now().Before(deadline) {
 				time.Sleep(200 * time.Microsecond)
 			}
